@@ -244,4 +244,45 @@ theorem C08_full_holds : C08_full := by
   obtain ⟨r, c1, _, c3⟩ := destroy_iff_empty w
   exact ⟨s, fun op hop he => seq_no_stuck w hop he, ⟨l, b1, b2, b3, b4⟩, ⟨r, c1, c3⟩⟩
 
+/-! ## Non-vacuity: the hypotheses are satisfiable by concrete, non-trivial states and runs -/
+
+/-- an accepted configuration (`max < init`: size clamped to 8) and its initial table -/
+def exCfg : Option Cfg := newNorm 256 16 1 8 0 (some .order)
+def exTable : Table := (exCfg.bind Table.ofCfg).getD default
+
+example : NewAccepts 16 1 8 (some .order) := ⟨⟨0, rfl⟩, ⟨4, rfl⟩, Or.inl ⟨3, rfl⟩⟩
+example : exCfg = some ⟨8, 1, 0, 8, .order, 0⟩ := by decide +kernel
+example : ¬ NewAccepts 16 1 0 (some .chunk) := by
+  rintro ⟨-, -, ⟨k, hk⟩ | ⟨-, h⟩⟩
+  · exact absurd hk.symm (Nat.ne_of_gt (Nat.pow_pos (by decide)))
+  · cases h
+example : newNorm 256 16 1 0 0 (some .chunk) = none := by decide +kernel
+example : newNorm 256 12 1 8 0 none = none := by decide +kernel
+
+/-- bucket nodes of the 8-bucket table in split order -/
+example : exTable.list.map (·.id) = [0, 4, 2, 6, 1, 5, 3, 7] := by decide +kernel
+
+/-- `WF` holds for the concrete initial table (hypothesis of every theorem above) -/
+example : WF exTable := by
+  have h := (new_normalises 256 16 1 8 0 (some .order) ⟨8, rfl⟩ (by decide) (by decide)).2
+  obtain ⟨-, t, ht, w, -⟩ := h ⟨8, 1, 0, 8, .order, 0⟩ (by decide +kernel)
+  have : exTable = t := by
+    have e : exCfg = some ⟨8, 1, 0, 8, .order, 0⟩ := by decide +kernel
+    simp [exTable, e, ht]
+  rw [this]; exact w
+
+/-- a concrete run with colliding hashes and duplicate keys: hash 5 three times (two keys), plus
+hash `2^63+5` that differs in the top bit only; unique/replace/duplicate-chain/resize/traversal/
+del/replace/count/destroy all exercised -/
+example : (runOps exTable [.add 1 5 7, .add 2 5 7, .add 3 5 9, .add 4 (2^63 + 5) 7, .addUnique 5 5 7,
+      .addReplace 6 5 7, .lookup 5 7, .lookup 5 9, .lookup (2^63 + 5) 7, .resize 3, .traverse, .del (some 2),
+      .del (some 2), .replace (some 6) 7 5 7, .replace (some 6) 8 5 7, .replace (some 7) 8 5 9, .countNodes, .destroy,
+      .resize 0, .lookup 5 7, .traverse]).map (·.2)
+    = some [.unit, .unit, .unit, .unit, .node (some 1), .node (some 1), .ids [6, 2], .ids [3], .ids [4], .unit,
+            .ids [6, 2, 3, 4], .ret 0, .ret (-2), .ret 0, .ret (-2), .ret (-22), .count 3, .ret (-1),
+            .unit, .ids [7], .ids [7, 3, 4]] := by decide +kernel
+
+/-- API misuse is not enabled (adding a node that is already stored) -/
+example : (runOps exTable [.add 1 5 7, .add 1 6 7]) = none := by decide +kernel
+
 end UrcuVerif.Lfht.Seq
